@@ -80,6 +80,11 @@ impl Rep {
         }
         let mine = idx % self.nshards == self.shard;
         if mine {
+            if let Ok(mut c) = crate::sim::CURRENT_CASE.lock() {
+                c.clear();
+                c.push_str(id);
+            }
+            crate::sim::beat();
             if let Some(j) = &self.journal {
                 let _ = std::fs::write(j, id);
             }
